@@ -88,8 +88,10 @@ def rows_case(draw):
     if lazy:
         init = []
         ops = [["append_dict", draw(row), list(range(ncol))]] + [list(o) for o in ops]
+    # rows handed to the constructor may be lists or dicts, mixed
+    init_dict = [draw(st.integers(0, 2)) == 0 for _ in init]
     return {"kind": "rows", "names": names, "types": types, "array": array, "lazy": lazy, "init": init,
-            "ops": [list(o) for o in ops]}
+            "ops": [list(o) for o in ops], "init_dict": init_dict}
 
 
 @st.composite
@@ -308,15 +310,19 @@ def check_rows(case, v):
     from scinumtools import RowCollector
     names, types, array = case["names"], case["types"], case["array"]
     dt = {"i": dict(dtype=np.int64), "f": dict(dtype=float), "s": dict(dtype="U16")}
+    rows0 = [({n: r[j] for j, n in reversed(list(enumerate(names)))} if d else list(r))
+             for r, d in zip(case["init"], case.get("init_dict") or [False] * len(case["init"]))]
     if case["lazy"]:
         # another default-constructed collector, fed other column names, lived in this process before
         earlier = RowCollector()
         earlier.append({"zz0": 1, "zz1": 2.5})
         rc = RowCollector()
     elif array:
-        rc = RowCollector({n: dt[t] for n, t in zip(names, types)}, rows=case["init"] or None, array=True)
+        rc = RowCollector({n: dt[t] for n, t in zip(names, types)}, rows=rows0 or None, array=True)
     else:
-        rc = RowCollector(list(names), rows=case["init"] or None)
+        rc = RowCollector(list(names), rows=rows0 or None)
+    if any(case.get("init_dict") or []):
+        v.label("constructor_rows_with_dicts")
     model = [list(r) for r in case["init"]]
     nt = False
 
@@ -442,9 +448,12 @@ def check_comb(case, v):
             return v.fail("comb-values", f"an enumeration of {items!r} ended early while another one was abandoned / running "
                                          f"(expected {len(exp_v)} combinations)")
         v.label("comb_after_partial_iteration")
-    got_v = list(dc.values())
-    got_k = list(dc.keys())
-    got_i = list(dc.items())
+    try:
+        got_v = list(dc.values())
+        got_k = list(dc.keys())
+        got_i = list(dc.items())
+    except Exception as e:
+        return v.fail("comb-values", f"enumerating DataCombination({items!r}) raised {e!r}")
     if got_v != exp_v:
         return v.fail("comb-values", f"values {got_v[:8]!r} != {exp_v[:8]!r}")
     if got_k != exp_k:
